@@ -31,14 +31,17 @@ structure Inst where
   spec : Option (List (Ev Int β) → Bool) := none
   /-- the history class the specification is stated for (C12: no nested fan-out) -/
   specDomain : List (Ev Int β) → Bool := fun _ => true
+  /-- `Namespace.constructor` of a location (coverage of the model's code by the scripts) -/
+  locName : Loc → String := fun _ => "?"
 
 def parseIntList (s : String) : Option (List Int) :=
   let inner := ((s.drop 1).dropEnd 1).toString
   if inner.isEmpty then some [] else (inner.splitOn ",").mapM String.toInt?
 
-def mkInt {St Loc} (M : Machine St Loc Int Int) (nSinks : Nat := 1) (spec : Option (List (Ev Int Int) → Bool) := none)
+def mkInt {St Loc} [Repr Loc] (M : Machine St Loc Int Int) (nSinks : Nat := 1) (spec : Option (List (Ev Int Int) → Bool) := none)
     (dom : List (Ev Int Int) → Bool := fun _ => true) : Inst :=
-  { St := St, Loc := Loc, β := Int, M := M, fb := fmtInt, pb := String.toInt?, nSinks := nSinks, spec := spec, specDomain := dom }
+  { St := St, Loc := Loc, β := Int, M := M, fb := fmtInt, pb := String.toInt?, nSinks := nSinks, spec := spec, specDomain := dom,
+    locName := fun l => locTag (reprStr l) }
 
 def relaySpec {σ} (k : Relay.Kind σ Int Int) : Option (List (Ev Int Int) → Bool) := some (relayOk k.xfer k.seed)
 
@@ -61,6 +64,7 @@ structure IntStage where
   St : Type
   Loc : Type
   M : Machine St Loc Int Int
+  [reprLoc : Repr Loc]
 
 /-- stages of `chain:` instances; fields separated by `,` -/
 def stageOf (name : String) : Option IntStage :=
@@ -80,15 +84,20 @@ def stageOf (name : String) : Option IntStage :=
   | ["flatten"] => some ⟨_, _, Flatten.machine Int⟩                             -- only as the first stage
   | _ => none
 
+def IntStage.then (a b : IntStage) : IntStage :=
+  haveI : Repr a.Loc := a.reprLoc
+  haveI : Repr b.Loc := b.reprLoc
+  { St := a.St × b.St, Loc := List (CFr a.Loc b.Loc), M := compose a.M b.M }
+
 /-- `pipe!(puppets…, stage₁, stage₂, …)`: left fold of `compose` -/
 def chainOf : List String → Option IntStage
   | [] => none
   | s :: rest => (stageOf s).bind fun first =>
-      rest.foldl (fun acc nm => acc.bind fun a => (stageOf nm).map fun b => ⟨_, _, compose a.M b.M⟩) (some first)
+      rest.foldl (fun acc nm => acc.bind fun a => (stageOf nm).map fun b => a.then b) (some first)
 
 def instOf (name : String) : Option Inst :=
   if name.startsWith "chain:" then
-    (chainOf ((name.drop 6).toString.splitOn "/")).map fun c => mkInt c.M
+    (chainOf ((name.drop 6).toString.splitOn "/")).map fun c => @mkInt c.St c.Loc c.reprLoc c.M 1 none (fun _ => true)
   else
   match name.splitOn ":" with
   | ["map", "add", k] => k.toInt?.map fun k => mkInt (Relay.machine (Relay.map (· + k))) 1 (relaySpec (Relay.map (· + k)))
@@ -110,10 +119,10 @@ def instOf (name : String) : Option Inst :=
   | ["flattenL"] => some (mkInt { Flatten.machine Int with shape := { nSrc := 1, relayErr := false, lateGreet := true } })
   | ["combineL", n] => n.toNat?.map fun n =>
       { St := Combine.St Int, Loc := Combine.Loc Int, β := List Int, M := { Combine.machine Int n with shape := { nSrc := n, lateGreet := true } },
-        fb := fmtList, pb := parseIntList }
+        fb := fmtList, pb := parseIntList, locName := fun l => locTag (reprStr l) }
   | ["combine", n] => n.toNat?.map fun n =>
       { St := Combine.St Int, Loc := Combine.Loc Int, β := List Int, M := Combine.machine Int n, fb := fmtList, pb := parseIntList,
-        spec := some (combineOk n) }
+        spec := some (combineOk n), locName := fun l => locTag (reprStr l) }
   | ["flatten"] => some (mkInt (Flatten.machine Int) 1 (some flattenOk))
   | ["share", k] => k.toNat?.map fun k => mkInt (Share.machine Int) k (some shareOk) noNestedFanoutTr
   | ["fromiter", "inf"] => some (mkInt (FromIter.machine Int (iterNext none) 0) 1 (some (fromIterOk (iterNext none) 0)))
